@@ -589,7 +589,8 @@ class Lower:
     def ref_arg(self, a, x):
         """address of an argument bound to a reference parameter; a temporary (call result, literal) is materialised first"""
         if re.match(r'^\(?\w+\(.*\)\)?$', x) and not x.startswith('(*') and not x.startswith('((') or x.startswith('((struct') or re.match(r'^\(*-?\d', x) \
-                or re.match(r'^\(*"', x):          # a string literal bound to `const char* const&`: the pointer is the temporary
+                or re.match(r'^\(*"', x) \
+                or re.match(r'^\(*\((?:unsigned |signed )?\w+\)\(*-?\d+\)*$', x):     # a string literal / a cast literal bound to a const reference
             ct = self.ctype(a['type'])
             t = 'vs_t%d' % self.tmp
             self.tmp += 1
@@ -1088,7 +1089,10 @@ class Lower:
         # copy / move construction of a value: C struct copy (unless the unit models the constructor explicitly)
         if len(ins) == 1 and self.is_copy_sig(ctort) and ('ctor:%s/copy' % rec) in self.stubs and \
                 strip_ptr(norm_type(self.param_types_from_sig(ctort)[0])).split('::')[-1].split('<')[0] == rec.split('::')[-1].split('<')[0]:
-            return self.emit_call(self.stubs['ctor:%s/copy' % rec], [self.ref_arg(ins[0], self.E(ins[0]))], n)
+            cst = self.stubs['ctor:%s/copy' % rec]
+            if isinstance(cst, dict):
+                return self.stub_expand(cst, None, [self.E(ins[0])], n)
+            return self.emit_call(cst, [self.ref_arg(ins[0], self.E(ins[0]))], n)
         if len(ins) == 1 and self.is_copy_sig(ctort):
             pt = norm_type(self.param_types_from_sig(ctort)[0])
             if strip_ptr(pt) == rec or strip_ptr(pt).split('::')[-1] == rec.split('::')[-1]:
